@@ -116,7 +116,7 @@ Section Core.
     decrypt (et_keytype et) (et_key et) (auth_usage (tk_sname tk)) ac = Ok apt -> dec_auth apt = Some au ->
     au_cname au = et_cname et -> au_crealm au = et_crealm et ->
     Z.abs (t - (us (au_ctime au) + au_cusec au)) <= st_skew st ->
-    In (mkAuth (join_slash (au_cname au)) (us (au_ctime au) + au_cusec au) (tk_sname tk)) rc ->
+    In (mkAuth (join_slash (au_cname au)) (us (au_ctime au) + au_cusec au) (eff_sname st tk)) rc ->
     verify_apreq dec_ticket dec_auth st kt t rc tk aet ac = (Reject 34, rc).
   Proof.
     intros EK ED ET HS EFI HE HA HR EDA EAU ECN ECR HSK HRC. unfold verify_apreq.
@@ -198,10 +198,10 @@ Theorem honest_apreq_accepted st kt t rc tk aet ac wire rest et au ept apt0 kv k
   (st_require_addr st = true -> et_caddr et <> []) ->
   au_cname au = et_cname et -> au_crealm au = et_crealm et ->
   Z.abs (t - (us (au_ctime au) + au_cusec au)) <= st_skew st ->
-  ~ In (mkAuth (join_slash (au_cname au)) (us (au_ctime au) + au_cusec au) (tk_sname tk)) rc ->
+  ~ In (mkAuth (join_slash (au_cname au)) (us (au_ctime au) + au_cusec au) (eff_sname st tk)) rc ->
   verify_apreq_bytes st kt t rc (wire ++ rest) =
   (Accept (mkIdentity (join_slash (et_cname et)) (et_crealm et) (et_cname et) (et_end et)),
-   mkAuth (join_slash (au_cname au)) (us (au_ctime au) + au_cusec au) (tk_sname tk) :: rc).
+   mkAuth (join_slash (au_cname au)) (us (au_ctime au) + au_cusec au) (eff_sname st tk) :: rc).
 Proof.
   intros Hwf Hwire Hwlen Hwet Hept Heptlen Hwau Hapt Haptlen Hkey Hkok Hsealt Hsok Hseala
          HS EFI HE HA HR ECN ECR HSK HRC.
@@ -229,7 +229,7 @@ Theorem honest_apreq_replayed st kt t rc tk aet ac wire rest et au ept apt0 kv k
   (st_require_addr st = true -> et_caddr et <> []) ->
   au_cname au = et_cname et -> au_crealm au = et_crealm et ->
   Z.abs (t - (us (au_ctime au) + au_cusec au)) <= st_skew st ->
-  In (mkAuth (join_slash (au_cname au)) (us (au_ctime au) + au_cusec au) (tk_sname tk)) rc ->
+  In (mkAuth (join_slash (au_cname au)) (us (au_ctime au) + au_cusec au) (eff_sname st tk)) rc ->
   verify_apreq_bytes st kt t rc (wire ++ rest) = (Reject 34, rc).
 Proof.
   intros Hwf Hwire Hwlen Hwet Hept Heptlen Hwau Hapt Haptlen Hkey Hkok Hsealt Hsok Hseala
@@ -258,12 +258,12 @@ Corollary honest_apreq_then_replay_rejected st kt t t' rc tk aet ac wire rest et
   (st_require_addr st = true -> et_caddr et <> []) ->
   au_cname au = et_cname et -> au_crealm au = et_crealm et ->
   Z.abs (t - (us (au_ctime au) + au_cusec au)) <= st_skew st ->
-  ~ In (mkAuth (join_slash (au_cname au)) (us (au_ctime au) + au_cusec au) (tk_sname tk)) rc ->
+  ~ In (mkAuth (join_slash (au_cname au)) (us (au_ctime au) + au_cusec au) (eff_sname st tk)) rc ->
   (* the time conditions at the second presentation *)
   match et_start et with Some s => us s - t' <= st_skew st | None => True end ->
   t' - us (et_end et) <= st_skew st ->
   Z.abs (t' - (us (au_ctime au) + au_cusec au)) <= st_skew st ->
-  let a := mkAuth (join_slash (au_cname au)) (us (au_ctime au) + au_cusec au) (tk_sname tk) in
+  let a := mkAuth (join_slash (au_cname au)) (us (au_ctime au) + au_cusec au) (eff_sname st tk) in
   let first := verify_apreq_bytes st kt t rc (wire ++ rest) in
   snd first = a :: rc /\
   verify_apreq_bytes st kt t' (snd first) (wire ++ rest) = (Reject 34, a :: rc).
